@@ -254,6 +254,16 @@ class Tagger:
                 if f is None and isinstance(src, ast.Name):
                     f = self.alias.get(src.id, src.id)
                 name = _norm_coll(f or ast.unparse(src))
+                # iterating a mapping of the *record* itself visits its keys
+                # in the record's own order, not in the (sorted) order the
+                # writer fixed for the titles at setup
+                root = src
+                while isinstance(root, (ast.Attribute, ast.Subscript)):
+                    root = root.value
+                if f is None and isinstance(root, ast.Name) and len(
+                        self.fi.params) > 1 and root.id in \
+                        self.fi.params[1:] and src is not root:
+                    name = "record's own " + name
                 if isinstance(tgt, ast.Name):
                     self.loopvars[tgt.id] = name
                 out.append(("loop", name, self.stream(s.body)))
@@ -1892,8 +1902,11 @@ def _parses_into_fresh(fi: FuncInfo) -> bool:
                     srcx.func) == "np.fromstring" and srcx.args and \
                     ast.unparse(srcx.args[0]) in derived:
                 kw = {k.arg: ast.unparse(k.value) for k in srcx.keywords}
+                # all values of the text are parsed (count = -1): only then
+                # does reshape(x.shape) reject a text of the wrong size
                 ok = kw.get("dtype") == f"{x}.dtype" and kw.get(
-                    "sep", "").endswith("SEPARATOR")
+                    "sep", "").endswith("SEPARATOR") and kw.get(
+                    "count", "-1") == "-1" and len(srcx.args) == 1
     rets = [r for r in ast.walk(fi.node) if isinstance(r, ast.Return)]
     return ok and len(rets) == 1 and ast.unparse(rets[0].value) == x
 
